@@ -37,6 +37,11 @@ IGNORE_SRC = {
 }
 
 
+# the same key written with `$` at top level, inside (), {} and [] groups, and twice
+KEY_STYLES = ["kk::<%(n)d, _>(&$)", "$.p() >> %(n)d", "(kk::<%(n)d, _>(&$), kk::<%(n)d, _>(&$)).1", "{ let t = &$; kk::<%(n)d, _>(t) }",
+              "[kk::<%(n)d, _>(&$), 0][0]", "kk::<%(n)d, _>(&$) | ($.p() >> %(n)d)"]
+
+
 class Field:
     def __init__(self, name, ty, attrs=None, vis=""):
         self.name = name  # None for tuple fields
@@ -44,6 +49,7 @@ class Field:
         self.attrs = attrs or {}  # attr name -> set of {'ignore','reverse','key','by'}
         self.extra_attrs = []  # raw attribute strings (e.g. bound(..))
         self.consistent = False  # C02: every key/by callback expresses one and the same key (N = 1, total)
+        self.key_style = 0  # how the key expression uses the `$` placeholder (all styles compute kk::<N>(field))
 
     def has(self, attr, arg):
         return arg in self.attrs.get(attr, ())
@@ -60,7 +66,7 @@ class Field:
                 if "reverse" in s:
                     args.append("reverse")
                 if "key" in s:
-                    args.append("key = kk::<%d, _>(&$)" % n)
+                    args.append("key = " + KEY_STYLES[self.key_style % len(KEY_STYLES)] % {"n": n})
                 if "by" in s:
                     fn = {"ord": "by_ord", "partial_ord": "by_po_total" if self.consistent else "by_po", "eq": "by_eq", "partial_eq": "by_eq",
                           "hash": "by_hash"}[a]
@@ -420,10 +426,13 @@ def place(shape_name, placements, traits=None):
     fields = [f for _, f in t.all_fields()]
     if t.generics and traits is not None and not supertrait_closed(traits):
         return None  # hand-written supertrait impls are only written for concrete types
-    for idx, attr, args in placements:
+    for pl in placements:
+        idx, attr, args = pl[0], pl[1], pl[2]
         if idx >= len(fields):
             return None
         f = fields[idx]
+        if len(pl) > 3:
+            f.key_style = pl[3]
         if "PhantomData" in f.ty:
             return None
         if "by" in args and any(g.split(":")[0].strip() == f.ty for g, _ in t.generics):
@@ -433,7 +442,7 @@ def place(shape_name, placements, traits=None):
 
 
 def candidate_desc(shape, placements, traits, entry):
-    pl = ";".join("%s(%s)@%d" % (a, "+".join(args), i) for i, a, args in placements) or "-"
+    pl = ";".join("%s(%s)@%d%s" % (p[1], "+".join(p[2]), p[0], (" keystyle=%d" % p[3]) if len(p) > 3 and p[3] else "") for p in placements) or "-"
     return "shape=%s attrs=%s traits=%s entry=%s" % (shape, pl, "+".join(traits), entry)
 
 
@@ -475,7 +484,7 @@ def accepted(cands):
 
 def sig_of(cand):
     sh, pl, ts, en = cand
-    p = ";".join("%s(%s)@%s" % (a, "+".join(args), pos_class(sh, i)) for i, a, args in pl) or "-"
+    p = ";".join("%s(%s)@%s%s" % (x[1], "+".join(x[2]), pos_class(sh, x[0]), (" ks%d" % x[3]) if len(x) > 3 and x[3] else "") for x in pl) or "-"
     return "%s|%s|%s|%s" % (sh, p, "+".join(ts), en)
 
 
